@@ -74,8 +74,32 @@ Definition encode_exchange_headers (e : exchange) : R bytes :=
     Ok (enc_array_header 2 ++ rq ++ rs)
   else encode_response_map e.
 
+(* validateFallbackURL: (accepted?, tainted?) *)
+Definition validate_fallback (u : bytes) : bool * bool :=
+  match url_parse u with
+  | UErr => (false, false)
+  | UOk sch _ _ _ => (bytes_eqb sch (s2b "https"), false)
+  | UUnknown =>
+      (* outside the decided class of url.Parse: a scheme other than https is refused whatever
+         the parser answers (an error is refused too); only https URLs stay undecided *)
+      match get_scheme (fst (split_at (N.eqb 35) u [])) O [] (fst (split_at (N.eqb 35) u [])) with
+      | Some (sch, _) => if bytes_eqb (lower sch) (s2b "https") then (true, true) else (false, false)
+      | None => (false, false)
+      end
+  end.
+
 (* ---- Write -------------------------------------------------------------- *)
+(* Write refuses what ReadExchange refuses: a fallback URL that is not https, and
+   (b2) a request header named ":url" *)
+Definition write_refuses (e : exchange) : bool :=
+  negb (fst (validate_fallback (e_uri e)))
+  || (match e_ver e with
+      | V1b2 => existsb (fun nv => bytes_eqb (lower (fst nv)) (s2b ":url")) (e_reqh e)
+      | _ => false end).
+Definition write_taint (e : exchange) : bool := snd (validate_fallback (e_uri e)).
+
 Definition write (e : exchange) : R bytes :=
+  if write_refuses e then Err else
   let* hdr := encode_exchange_headers e in
   let hl := lenN hdr in
   let sl := lenN (e_sig e) in
@@ -96,14 +120,6 @@ Definition write (e : exchange) : R bytes :=
   end.
 
 (* ---- Read --------------------------------------------------------------- *)
-(* validateFallbackURL: (accepted?, tainted?) *)
-Definition validate_fallback (u : bytes) : bool * bool :=
-  match url_parse u with
-  | UErr => (false, false)
-  | UOk sch _ _ _ => (bytes_eqb sch (s2b "https"), false)
-  | UUnknown => (true, true)
-  end.
-
 (* strconv.Atoi *)
 Definition atoi (s : bytes) : option Z :=
   match s with
@@ -293,7 +309,7 @@ Section Crypto.
   (* Exchange.MiEncodePayload *)
   Definition mi_encode_payload (e : exchange) (rs : N) : R exchange :=
     let d := mice_of (e_ver e) in
-    match hdr_get (e_resph e) (digest_header_name d) with
+    match hdr_values (e_resph e) (digest_header_name d) with
     | _ :: _ => Err
     | [] =>
         let* (stream, dg) := encode H256 d rs (e_payload e) in
@@ -370,10 +386,10 @@ Section Crypto.
   Definition is_cacheable (e : exchange) : bool :=
     if negb (status_known (e_status e)) then false
     else
-      let ds := cache_directives (hdr_value (e_resph e) (s2b "Cache-Control")) in
+      let ds := cache_directives (hdr_value_ci (e_resph e) (s2b "Cache-Control")) in
       if has_directive ds "no-store" then false
       else if has_directive ds "private" then false
-      else if negb (match hdr_value (e_resph e) (s2b "Expires") with [] => true | _ => false end) then true
+      else if negb (match hdr_value_ci (e_resph e) (s2b "Expires") with [] => true | _ => false end) then true
       else if has_directive ds "max-age" then true
       else if has_directive ds "s-maxage" then true
       else if cacheable_status (e_status e) then true
@@ -400,7 +416,7 @@ Section Crypto.
     let d := mice_of (e_ver e) in
     if negb (bytes_eqb (s_integrity s) (integrity_identifier d)) then None
     else
-      match hdr_value (e_resph e) (digest_header_name d) with
+      match hdr_value_ci (e_resph e) (digest_header_name d) with
       | [] => None
       | dg =>
           match decode_all H256 d (e_payload e) dg 16384 512 with
@@ -437,7 +453,7 @@ Section Crypto.
                       if negb (bytes_eqb (s_cert_sha s) csha) then None
                       else if negb (sig_ok kid msg (s_sig s)) then None
                       else if negb (has_request (e_ver e))
-                              && (match hdr_value (e_resph e) (s2b "Content-Type") with [] => true | _ => false end)
+                              && (match hdr_value_ci (e_resph e) (s2b "Content-Type") with [] => true | _ => false end)
                       then None
                       else verify_payload e s
                   | _ => None
